@@ -403,13 +403,24 @@ func main() {
 	}
 	if run.Replay != "" {
 		var rp struct {
-			Arch archCfg  `json:"arch"`
-			Ops  []string `json:"ops"`
-			Line string   `json:"line"`
-			Prog string   `json:"program"`
+			Arch  archCfg        `json:"arch"`
+			Ops   []string       `json:"ops"`
+			Line  string         `json:"line"`
+			Prog  string         `json:"program"`
+			Reuse map[string]any `json:"reuse"`
 		}
 		if _, err := vlib.LoadReplay(run.Replay, &rp); err != nil {
 			panic(err)
+		}
+		if rp.Reuse != nil {
+			_, rf := reuseStage(true)
+			for _, f := range rf {
+				fmt.Println(f.sig, ":", f.what)
+				run.Report(f.sig, f.what, f.rp)
+			}
+			run.Set("evaluations", 1)
+			run.Finish()
+			return
 		}
 		m, _ := bmgen.NewMachine(bmgen.ArchSpec{Rsize: rp.Arch.Rsize, R: rp.Arch.R, N: rp.Arch.N, M: rp.Arch.M, L: rp.Arch.L, O: rp.Arch.O, Ops: rp.Ops, Shared: sharedAll, WordSize: rp.Arch.WordSize, Modes: rp.Arch.modes()})
 		if rp.Prog != "" {
@@ -527,6 +538,12 @@ func main() {
 	}
 	close(ch)
 	wg.Wait()
+	rn, rfails := reuseStage(run.Thorough())
+	for _, f := range rfails {
+		run.Report(f.sig, f.what, f.rp)
+	}
+	run.Set("reuse_stage_lines", rn)
+	run.Add("evaluations", rn)
 	run.Set("distinct_nontrivial", len(distinct))
 	run.Set("architectures", len(jobs))
 	run.Set("rule", "every line op × token^k (k≤2, k=3 on a slice) over a boundary token universe (in-range and out-of-range registers, ports, shared objects, immediates at 2^L,2^O,2^Rsize boundaries, junk) for a grid of architectures; distinct_nontrivial = distinct (opcode, operand-class tuple) that assembled and passed width + disassemble + re-assemble")
